@@ -427,6 +427,7 @@ class Unit:
         self.functions = []     # real functions under contract: {id, file, line, props}
         self.havocs = []
         self.lost_anchors = []
+        self.degraded_fns = set()
         self.trait_contracts = []
         self.reduced = []
         self.order = []
@@ -658,6 +659,7 @@ class Unit:
                 # a ghost block whose anchor statement is gone: the rest of the function is still verified; the
                 # obligation of this block (if any) is reported as lost (undecided unless the replay finds an input)
                 acount += 1
+                self.degraded_fns.add(fid)
                 oid = '%s/%s/assert#%d' % (self.name, fid, acount)
                 if re.search(r'\bassert\b', rs.mask(text)):
                     self.obligations[oid] = {'props': props, 'kind': 'assert', 'fn': fid, 'text': ' '.join(text.split())[:300], 'property_level': '@property' in text}
